@@ -52,7 +52,10 @@ CHECKS = {
                 "OvsdbServer.Transact itself, and after every transaction each stored row must be found through each schema index." + BIG_NOTE + " TestC03API "
                 "(server + connected client): operations built through the model API - Where/WhereAll/WhereAny/WhereCache(...).Delete(), "
                 ".Update(model, 1-2 drawn columns), .Mutate(model, 1-3 drawn mutations, repeats included) - executed through the client must have "
-                "the effect refdb computes for the operations asked for. evaluations = histories / API cases. "
+                "the effect refdb computes for the operations asked for; one case in seven asks for .Wait(until ==/!=, timeout 0, model, 1-3 listed fields) instead: "
+                "as many wait operations as Delete() generates, each with the table, until, timeout, exactly the listed columns and one expected row holding the model's values, "
+                "their where clauses together selecting exactly the listed rows, and each operation, executed alone, succeeds or times out as refdb decides for the rows "
+                "a select with the same clause returns (expectations without default values and multi-element sets, clauses selecting at most one row: the agreeing domain of the finding wait-semantics). evaluations = histories / API cases. "
                 "Non-trivial = history containing a transaction where >=2 operations touch the same table, or a condition/"
                 "mutation on a set or map column; distinct = hash of (schema column kinds, operation/condition/mutator sequence).",
         "assumptions": COMMON_ASSUMPTIONS + [
@@ -515,14 +518,14 @@ CHECKS = {
     "C18": {
         "procs": 8,
         "rule": "built with -race. The client talks to the server through the harness proxy, which can answer chosen methods with a JSON-RPC error "
-                "('unknown method' = what a server lacking the method says). TestC18Enumerated enumerates completely 28 ways an API call can fail "
+                "('unknown method' = what a server lacking the method says). TestC18Enumerated enumerates completely 31 ways an API call can fail "
                 "(Monitor with option errors / a conditional table whose condition cannot be converted / no tables / unknown table / unsupported method / cancelled context / not connected / refused by the "
                 "server / monitor_cond_since unknown and the monitor_cond fallback refused / both unknown and the monitor fallback refused / no monitor "
                 "method known / a table that is already monitored / a notification the cache cannot apply arriving before the monitor reply; Transact answered with an RPC error, failing validation, on an unknown table, with "
                 "an expired context, not connected, rejected by the server; MonitorCancel refused; MonitorCancel with a notification the cache cannot apply in flight; Echo answered with such a notification and the connection lost 0-3 ms later (two reasons to tear the connection down at once); Echo against a mute server; Get miss; List with a "
-                "wrong or non-pointer type; Where without models; Create of a foreign model) x 9 follow-up calls (Disconnect+Connect, "
+                "wrong or non-pointer type; Where without models; Create of a foreign model; SetOption refused because the client is connected, SetOption of an option that reports an error while disconnected, SetOption accepted while disconnected) x 10 follow-up calls (Disconnect+Connect, Disconnect+SetOption+Connect, "
                 "Close+Connect, Monitor, Transact, Get, Echo, List, and Get/List with context.Background(): a cache read on an idle connected client "
-                "must not need a deadline to return) x monitor present or not = 504 combinations: every call returns within "
+                "must not need a deadline to return) x monitor present or not = 620 combinations: every call returns within "
                 "20 s (bounded contexts allow 2 s) and an epilogue Close, Connect, Echo, Monitor, Get of a seeded row succeeds. TestC18Concurrent: 2-4 "
                 "goroutines run drawn lists of 4-14 calls (Get, List, Where.List, WhereCache.List, Cache().Rows, Transact, Monitor, MonitorCancel, "
                 "Echo, Disconnect, Connect, Close) on one client, with and without reconnect, while a writer commits transactions that keep "
